@@ -161,7 +161,7 @@ func (c *faultyClient) OpenLTXFile(ctx context.Context, level int, minTXID, maxT
 // ---- case ----
 
 type Step struct {
-	Op      string      `json:"op"` // commit | rsync | once | syncn | saw | compact
+	Op      string      `json:"op"` // commit | rsync | once | syncn | saw | compact | restart | l0lost | dataloss | opensync
 	Faults  string      `json:"faults,omitempty"`
 	Max     int         `json:"max,omitempty"`
 	Partial int         `json:"partial,omitempty"`
@@ -183,6 +183,10 @@ type env struct {
 	dumps map[ltx.TXID]string
 	r     *hx.Rand
 	next  int
+	// restart support
+	dbPath      string
+	initPending bool   // a new DB object was opened; DB.init (behind-replica check) runs on its first Sync
+	lastRestore string // dump of the last successful restoreCheck
 }
 
 func dumpDB(d *sql.DB) (string, error) {
@@ -207,31 +211,122 @@ func dumpDB(d *sql.DB) (string, error) {
 
 func newEnv(root string, seed uint64) (*env, error) {
 	e := &env{root: root, dumps: map[ltx.TXID]string{}, r: hx.NewRand(seed), next: 1}
-	dbPath := filepath.Join(root, "db")
-	app, err := sql.Open("sqlite", dbPath)
-	if err != nil {
+	e.dbPath = filepath.Join(root, "db")
+	if err := e.openApp(true); err != nil {
 		return nil, err
 	}
+	e.raw = file.NewReplicaClient(filepath.Join(root, "replica"))
+	e.fc = &faultyClient{ReplicaClient: file.NewReplicaClient(filepath.Join(root, "replica"))}
+	if err := e.openDB(); err != nil {
+		return nil, err
+	}
+	return e, nil
+}
+
+func (e *env) openApp(create bool) error {
+	app, err := sql.Open("sqlite", e.dbPath)
+	if err != nil {
+		return err
+	}
 	app.SetMaxOpenConns(1)
-	for _, q := range []string{"PRAGMA page_size=1024", "PRAGMA journal_mode=wal", "PRAGMA wal_autocheckpoint=0", "CREATE TABLE t (id INTEGER PRIMARY KEY, v BLOB)"} {
+	qs := []string{"PRAGMA journal_mode=wal", "PRAGMA wal_autocheckpoint=0"}
+	if create {
+		qs = []string{"PRAGMA page_size=1024", "PRAGMA journal_mode=wal", "PRAGMA wal_autocheckpoint=0", "CREATE TABLE t (id INTEGER PRIMARY KEY, v BLOB)"}
+	}
+	for _, q := range qs {
 		if _, err := app.Exec(q); err != nil {
-			return nil, err
+			return err
 		}
 	}
 	e.app = app
-	e.raw = file.NewReplicaClient(filepath.Join(root, "replica"))
-	e.fc = &faultyClient{ReplicaClient: file.NewReplicaClient(filepath.Join(root, "replica"))}
-	db := litestream.NewDB(dbPath)
+	return nil
+}
+
+// openDB creates a new DB object on the same paths (a process restart) and opens it;
+// DB.init runs on its first Sync.
+func (e *env) openDB() error {
+	db := litestream.NewDB(e.dbPath)
 	db.MonitorInterval = 0
 	db.Logger = quiet
 	db.ShutdownSyncTimeout = 0
 	db.Replica = litestream.NewReplicaWithClient(db, e.fc)
 	db.Replica.MonitorEnabled = false
 	if err := db.Open(); err != nil {
-		return nil, err
+		return err
 	}
 	e.db = db
-	return e, nil
+	e.initPending = true
+	return nil
+}
+
+// ensureInit runs the pending DB.init fault-free (through an ordinary db.Sync).
+func (e *env) ensureInit() error {
+	if !e.initPending {
+		return nil
+	}
+	e.fc.arm("", 0, nil)
+	if err := e.db.Sync(context.Background()); err != nil {
+		return fmt.Errorf("fault-free db.Sync after restart: %w", err)
+	}
+	e.initPending = false
+	return e.recordDump()
+}
+
+func (e *env) recordDump() error {
+	pos, err := e.db.Pos()
+	if err != nil {
+		return err
+	}
+	d, err := dumpDB(e.app)
+	if err != nil {
+		return err
+	}
+	if pos.TXID > 0 {
+		e.dumps[pos.TXID] = d
+	}
+	return nil
+}
+
+// restart: Close (its final replica sync runs under `faults`), then — depending on `loss` —
+// "" nothing is lost; "l0": the local level-0 directory is lost; "all": the database file and its
+// meta directory are lost and the database is restored from the replica. New DB object, Open.
+func (e *env) restart(loss string, faults string) (string, error) {
+	ctx := context.Background()
+	l0dir, meta := e.db.LTXLevelDir(0), e.db.MetaPath()
+	e.fc.arm(faults, 0, nil)
+	_ = e.db.Close(ctx) // a failing final sync is a legitimate outcome of Close under faults
+	e.fc.arm("", 0, nil)
+	done := loss
+	switch loss {
+	case "l0":
+		if err := os.RemoveAll(l0dir); err != nil {
+			return "", err
+		}
+	case "all":
+		if l0, _ := e.remoteL0(); len(l0) == 0 {
+			done = "" // nothing to recover from: plain restart
+			break
+		}
+		_ = e.app.Close()
+		for _, p := range []string{e.dbPath, e.dbPath + "-wal", e.dbPath + "-shm"} {
+			if err := os.Remove(p); err != nil && !os.IsNotExist(err) {
+				return "", err
+			}
+		}
+		if err := os.RemoveAll(meta); err != nil {
+			return "", err
+		}
+		r := litestream.NewReplicaWithClient(nil, e.raw)
+		opt := litestream.NewRestoreOptions()
+		opt.OutputPath = e.dbPath
+		if err := r.Restore(ctx, opt); err != nil {
+			return "", fmt.Errorf("recover database from replica: %w", err)
+		}
+		if err := e.openApp(false); err != nil {
+			return "", err
+		}
+	}
+	return done, e.openDB()
 }
 
 func (e *env) close() {
@@ -264,19 +359,12 @@ func (e *env) commit(n int) error {
 	if err := tx.Commit(); err != nil {
 		return err
 	}
+	e.fc.arm("", 0, nil)
 	if err := e.db.Sync(context.Background()); err != nil {
 		return fmt.Errorf("db.Sync: %w", err)
 	}
-	pos, err := e.db.Pos()
-	if err != nil {
-		return err
-	}
-	d, err := dumpDB(e.app)
-	if err != nil {
-		return err
-	}
-	e.dumps[pos.TXID] = d
-	return nil
+	e.initPending = false
+	return e.recordDump()
 }
 
 func (e *env) remoteL0() ([]int, error) { return listLevel(e.raw, 0) }
@@ -384,6 +472,7 @@ func (e *env) restoreCheck(scratch string) string {
 	if got != want {
 		return fmt.Sprintf("restore at TXID %d differs from the source at that TXID (got %s want %s)", t, got, want)
 	}
+	e.lastRestore = got
 	return ""
 }
 
@@ -447,7 +536,70 @@ func runCase(drv *hx.Driver, c Case, scratch string, res *counter) (viol string,
 			if err := e.commit(max(1, st.N)); err != nil {
 				hx.Fatal(fmt.Errorf("commit: %w", err))
 			}
+		case "restart", "l0lost", "dataloss":
+			loss := map[string]string{"restart": "", "l0lost": "l0", "dataloss": "all"}[st.Op]
+			done, err := e.restart(loss, st.Faults)
+			if err != nil {
+				hx.Fatal(fmt.Errorf("%s: %w", st.Op, err))
+			}
+			res.Count("restart/" + st.Op + "->" + map[string]string{"": "plain", "l0": "l0-lost", "all": "recovered-from-replica"}[done])
+		case "opensync":
+			// one more transaction, then db.Sync with the fault schedule applying to the client calls of
+			// DB.init (behind-replica check: level-0 listing, baseline download)
+			before, err := e.remoteL0()
+			if err != nil {
+				hx.Fatal(err)
+			}
+			lpos, _ := e.db.Pos()
+			pending := e.initPending
+			b := make([]byte, 20+e.r.Intn(100))
+			for j := range b {
+				b[j] = byte(e.r.Uint64())
+			}
+			if _, err := e.app.Exec("INSERT INTO t (id, v) VALUES (?, ?)", e.next, b); err != nil {
+				hx.Fatal(err)
+			}
+			e.next++
+			e.fc.arm(st.Faults, st.Partial, st.RFaults)
+			serr := e.db.Sync(ctx)
+			calls := e.fc.calls
+			e.fc.arm("", 0, nil)
+			kind := "ok"
+			switch {
+			case serr == nil:
+			case strings.Contains(serr.Error(), "get replica position"):
+				kind = "errList"
+			case strings.Contains(serr.Error(), "open remote L0 file"), strings.Contains(serr.Error(), "copy L0 file"):
+				kind = "errOpen"
+			default:
+				kind = "other(" + serr.Error() + ")"
+			}
+			rebased := 0
+			if serr == nil {
+				e.initPending = false
+				if err := e.recordDump(); err != nil {
+					hx.Fatal(err)
+				}
+				if np, _ := e.db.Pos(); np.TXID != lpos.TXID+1 {
+					rebased = 1
+				}
+			}
+			res.Count(fmt.Sprintf("opensync(init-pending=%v)->%s", pending, strings.SplitN(kind, "(", 2)[0]))
+			if pending && len(st.RFaults) == 0 {
+				line := fmt.Sprintf("init REMOTE=%s DBPOS=%d F=%s", joinInts(before), lpos.TXID, st.Faults)
+				impl := fmt.Sprintf("res=%s rebased=%d calls=%d", kind, rebased, calls)
+				model, err := ask(drv, line)
+				if err != nil {
+					hx.Fatal(err)
+				}
+				if hx.Differs(impl, model) && disagree == "" {
+					disagree = fmt.Sprintf("step %d opensync: impl %q model %q [%s] err=%v", si, impl, model, line, serr)
+				}
+			}
 		case "rsync", "once", "syncn", "saw":
+			if err := e.ensureInit(); err != nil {
+				hx.Fatal(err)
+			}
 			before, err := e.remoteL0()
 			if err != nil {
 				hx.Fatal(err)
@@ -519,6 +671,8 @@ func runCase(drv *hx.Driver, c Case, scratch string, res *counter) (viol string,
 						oracle = st.Op + " acknowledged but " + msg
 					} else if plan, _ := litestream.CalcRestorePlan(ctx, e.raw, 0, zeroT, quiet); len(plan) > 0 && plan[len(plan)-1].MaxTXID != dpos.TXID {
 						oracle = fmt.Sprintf("%s acknowledged TXID %d but restore yields TXID %d", st.Op, dpos.TXID, plan[len(plan)-1].MaxTXID)
+					} else if src, err := dumpDB(e.app); st.Op == "saw" && err == nil && src != e.lastRestore {
+						oracle = fmt.Sprintf("%s acknowledged but restore (%s) differs from the source database (%s)", st.Op, e.lastRestore, src)
 					}
 				}
 			}
@@ -593,6 +747,13 @@ func runCase(drv *hx.Driver, c Case, scratch string, res *counter) (viol string,
 	}
 	// fault-free suffix: catch up
 	e.fc.arm("", 0, nil)
+	if err := e.db.Sync(ctx); err != nil {
+		return "fault-free db.Sync fails: " + err.Error(), len(c.Steps), disagree, e.fc.trace
+	}
+	e.initPending = false
+	if err := e.recordDump(); err != nil {
+		hx.Fatal(err)
+	}
 	dpos, _ := e.db.Pos()
 	if dpos.TXID > 0 {
 		if err := e.db.Replica.Sync(ctx); err != nil {
@@ -606,6 +767,9 @@ func runCase(drv *hx.Driver, c Case, scratch string, res *counter) (viol string,
 		}
 		if plan, _ := litestream.CalcRestorePlan(ctx, e.raw, 0, zeroT, quiet); len(plan) == 0 || plan[len(plan)-1].MaxTXID != dpos.TXID {
 			return "after the fault-free suffix restore does not reach the database's TXID", len(c.Steps), disagree, e.fc.trace
+		}
+		if src, err := dumpDB(e.app); err == nil && src != e.lastRestore {
+			return fmt.Sprintf("after the fault-free suffix restore (%s) differs from the source database (%s)", e.lastRestore, src), len(c.Steps), disagree, e.fc.trace
 		}
 	}
 	return "", -1, disagree, e.fc.trace
@@ -656,15 +820,53 @@ func genCompactCase(r *hx.Rand) Case {
 	return c
 }
 
+var initFaults = []string{"b", "b", "a", "ob", "oa", "", "bb", "bob"}
+
+// genRecoveryCase: directed — replicate, then restart / lose the local level-0 directory / lose the
+// database and recover it from the replica (optionally with a failing final sync), with the fault
+// schedule hitting the client calls of DB.init; then acknowledge and keep going.
+func genRecoveryCase(r *hx.Rand) Case {
+	c := Case{Seed: r.Uint64()}
+	for i, n := 0, 2+r.Intn(4); i < n; i++ {
+		c.Steps = append(c.Steps, Step{Op: "commit", N: 1 + r.Intn(3)})
+		if r.Chance(80) {
+			c.Steps = append(c.Steps, Step{Op: "rsync", Faults: genFaults(r, r.Intn(3))})
+		}
+	}
+	for round, n := 0, 1+r.Intn(2); round < n; round++ {
+		st := Step{Op: []string{"dataloss", "dataloss", "l0lost", "restart"}[r.Intn(4)]}
+		if r.Chance(30) {
+			st.Faults = "bbbbbbbb" // the final sync of Close fails: the replica stays behind
+		}
+		c.Steps = append(c.Steps, st)
+		if r.Chance(80) {
+			c.Steps = append(c.Steps, Step{Op: "opensync", Faults: initFaults[r.Intn(len(initFaults))]})
+		}
+		c.Steps = append(c.Steps, Step{Op: "saw", Faults: genFaults(r, r.Intn(3))}, Step{Op: "commit", N: 1 + r.Intn(2)},
+			Step{Op: "saw"}, Step{Op: "commit", N: 1}, Step{Op: "rsync", Faults: genFaults(r, r.Intn(3))})
+	}
+	return c
+}
+
 func genCase(r *hx.Rand) Case {
 	if r.Chance(25) {
 		return genCompactCase(r)
+	}
+	if r.Chance(35) {
+		return genRecoveryCase(r)
 	}
 	c := Case{Seed: r.Uint64()}
 	n := 6 + r.Intn(10)
 	c.Steps = append(c.Steps, Step{Op: "commit", N: 1 + r.Intn(3)})
 	for i := 0; i < n; i++ {
-		switch r.Intn(12) {
+		switch r.Intn(14) {
+		case 12:
+			c.Steps = append(c.Steps, Step{Op: []string{"restart", "l0lost", "dataloss"}[r.Intn(3)], Faults: genFaults(r, r.Intn(4))})
+			if r.Chance(60) {
+				c.Steps = append(c.Steps, Step{Op: "opensync", Faults: initFaults[r.Intn(len(initFaults))]})
+			}
+		case 13:
+			c.Steps = append(c.Steps, Step{Op: "opensync", Faults: genFaults(r, r.Intn(3))})
 		case 0, 1, 2, 3:
 			c.Steps = append(c.Steps, Step{Op: "commit", N: 1 + r.Intn(3)})
 		case 4, 5:
